@@ -91,6 +91,86 @@ def parseLine (d : DState) (line : String) : Except String DState :=
       | none => bad
     | _ => bad
 
+/-! ### unit-level streams: recompute one primitive with the model's definition -/
+
+def decOf (neg m sc : Nat) : Dec := ⟨neg == 1, m, sc⟩
+
+/-- `some true` agrees, `some false` disagrees, `none` = outside the model's domain / bad line -/
+def unitCheck (tag : String) (rest : List String) : Option Bool :=
+  match tag, rest with
+  | "UDP", [s, "bad"] =>
+    (decodeStr s).bind fun str =>
+      match Dec.parseFull str with
+      | .unmodelled => none
+      | .bad => some true
+      | .ok _ => some false
+  | "UDP", [s, "ok", neg, m, sc] =>
+    match decodeStr s, neg.toNat?, m.toNat?, sc.toNat? with
+    | some str, some neg, some m, some sc =>
+      (match Dec.parseFull str with
+       | .unmodelled => none
+       | .bad => some false
+       | .ok d => some (d == decOf neg m sc))
+    | _, _, _, _ => none
+  | "UDM", n1 :: m1 :: s1 :: n2 :: m2 :: s2 :: out =>
+    match n1.toNat?, m1.toNat?, s1.toNat?, n2.toNat?, m2.toNat?, s2.toNat? with
+    | some n1, some m1, some s1, some n2, some m2, some s2 =>
+      let r := Dec.mul (decOf n1 m1 s1) (decOf n2 m2 s2)
+      (match out, r with
+       | ["ovf"], none => some true
+       | ["ok", n, m, sc], some d =>
+         (match n.toNat?, m.toNat?, sc.toNat? with
+          | some n, some m, some sc =>
+            let e := decOf n m sc
+            some (Dec.eqv d e && (d.mant == 0 || d.neg == e.neg))
+          | _, _, _ => none)
+       | _, _ => some false)
+    | _, _, _, _, _, _ => none
+  | "UFF", [f, qt, q, out] =>
+    match f.toNat?, qt.toNat?, q.toNat? with
+    | some f, some qt, some q =>
+      (match Dec.feeFor f qt q, out with
+       | .err .panic, "panic" => some true
+       | .err .totalOverflow, "ovf" => some true
+       | .ok n, o => some (o.toNat? == some n)
+       | _, _ => some false)
+    | _, _, _ => none
+  | "URF", [rate, amount, out] =>
+    match decodeStr rate, amount.toNat? with
+    | some r, some a =>
+      (match Dec.parse r with
+       | some rd =>
+         (match Dec.rateFee rd (Dec.ofNat a), out with
+          | .err _, "ovf" => some true
+          | .ok n, o => some (o.toNat? == some n)
+          | _, _ => some false)
+       | none => none)
+    | _, _ => none
+  | "UBP", [price, prec, out] =>
+    match decodeStr price, prec.toNat? with
+    | some p, some k =>
+      (match Dec.parseFull p with
+       | .ok d =>
+         (match Dec.badPrecision d k, out with
+          | none, "panic" => some true
+          | some true, "1" => some true
+          | some false, "0" => some true
+          | _, _ => some false)
+       | _ => none)
+    | _, _ => none
+  | "UUI", [s, canon, anyf] =>
+    (decodeStr s).map fun str =>
+      (isCanonicalUuid str == (canon == "1")) && (isUuidAnyForm str == (anyf == "1"))
+  | "USV", [s, "bad"] => (decodeStr s).map fun str => (Version.parse str).isNone
+  | "USV", [s, "ok", a, b, c, d] =>
+    (decodeStr s).map fun str =>
+      match Version.parse str with
+      | none => false
+      | some v =>
+        (v.geReq 0 16 2 == (a == "1")) && (v.geReq 0 15 0 == (b == "1")) &&
+        (v.ltReq 0 16 2 == (c == "1")) && ((v.geReq 0 16 2 && v.ltReq 0 19 1) == (d == "1"))
+  | _, _ => none
+
 /-- `CS`: the pending deltas are a seeded initial state -/
 def seed (d : DState) : DState :=
   let s := d.pend.deltas.foldl applyDelta emptyState
@@ -120,6 +200,17 @@ partial def loop (h : IO.FS.Stream) (out : IO.FS.Stream) (d : DState) : IO DStat
                           evals := evals }
   else if line == "CS" then
     loop h out (seed d)
+  else if line.startsWith "U" then
+    let ts := (line.splitOn " ").filter (· != "")
+    match ts with
+    | tag :: rest =>
+      match unitCheck tag rest with
+      | some true => loop h out { d with evals := bump d.evals ("unit:" ++ tag) }
+      | some false =>
+        out.putStrLn ("UFAIL " ++ line)
+        loop h out { d with evals := bump d.evals ("unit:" ++ tag), fails := d.fails + 1 }
+      | none => loop h out { d with evals := bump d.evals ("unit-skipped:" ++ tag) }
+    | [] => loop h out d
   else
     match parseLine d line with
     | .ok d' => loop h out d'
